@@ -37,7 +37,7 @@ func init() {
 			"F2 every copy into a fixed-size pooled buffer is bounded by guards whose constants fit the buffer including the destination offset (or the buffer is re-allocated to the source length), and re-slices of pooled buffers use lengths derived from the buffer; F3 two-sided slices have ordered bounds (or the MarshalSize-of-a-header-parsed-from-the-same-bytes idiom) and length-relative bounds are tested; " +
 			"F4 results of Attributes.GetRTPHeader/GetRTCPPackets, rtcp.Unmarshal and pion/rtp Unmarshal are used only on the success branch of their error; A4 read buffers are used only as buffer[:n]; D3 no blocking send/receive on an internal channel on an API path without a close-channel case or default (no wedge).",
 		notDecided:  "crash-freedom itself: panics whose absence rests on arithmetic invariants (ring/bitmap indices seq%size, packetArrivalTimeMap capacity arithmetic, flexfec XOR lengths and constant header offsets), nil dereferences, panics inside pion/rtp and pion/rtcp, termination of loops (all loops over untrusted counts are bounded by 16-bit fields; not checked mechanically), one-sided slices s[n:] whose bound a callee computed",
-		sels:        []sel{s("A7"), s("D7"), s("T5"), s("N1"), s("N2"), s("C7"), s("A5"), so("F6"), so("F5"), so("L4", `jitterbuffer`), s("F1"), s("F2"), so("F3"), s("F4"), s("A4"), s("D3")},
+		sels:        []sel{s("X2"), s("A7"), s("D7"), s("T5"), s("N1"), s("N2"), s("C7"), s("A5"), so("F6"), so("F5"), so("L4", `jitterbuffer`), s("F1"), s("F2"), so("F3"), s("F4"), s("A4"), s("D3")},
 		assumptions: append([]string{"comparisons are credited as guards whatever their direction/strictness (a missing guard is detected, an off-by-one in a present guard is not, except for constant guards of pooled-buffer copies where the arithmetic is checked)", "two evaluations of a condition built only from parameters and constants agree (path classes are split on such conditions)"}, stdAssume...),
 	})
 	def(&propDef{
@@ -110,7 +110,7 @@ func init() {
 		explanation: "Decides three structural clauses: L1 — every exported Pop* method of JitterBuffer reaches the queue only on the playing branch of the state test and the other branch returns an error (sibling agreement over Pop, PopAtSequence, PopAtTimestamp); L2 — the playout head is only advanced where the queue call's error is known nil (a failed pop does not disturb the buffer); " +
 			"L3 — every Clear resets each root from which queries traverse (PriorityQueue.next, JitterBuffer.packets, RTPBuffer.packets): assigned nil/fresh, element-cleared over the whole range, or delegated — otherwise Find/PopAt/PopAtTimestamp still return what was buffered before Clear.",
 		notDecided:  "sortedness of the linked list for arbitrary push orders (plain < on uint16, not wrap-aware), length bookkeeping, that PopAtSequence advances the head by one whatever sequence was popped, scalar playout state (playoutReady/playoutHead) after Clear(true)",
-		sels:        []sel{so("E5", `jitterbuffer`), s("O1", `inspected|jitterbuffer`), s("W1", `\|pkg/jitterbuffer[.:]`), s("V1", `\|pkg/jitterbuffer[.:]`), so("L5", `jitterbuffer`), s("J5", `\|pkg/jitterbuffer[.:]`), s("J4", `\|pkg/jitterbuffer[.:]`), so("L4", `jitterbuffer`), s("J3", `\|pkg/jitterbuffer[.:]`), s("L1"), s("L2"), s("L3")},
+		sels:        []sel{s("X1", `inspected|jitterbuffer`), so("E5", `jitterbuffer`), s("O1", `inspected|jitterbuffer`), s("W1", `\|pkg/jitterbuffer[.:]`), s("V1", `\|pkg/jitterbuffer[.:]`), so("L5", `jitterbuffer`), s("J5", `\|pkg/jitterbuffer[.:]`), s("J4", `\|pkg/jitterbuffer[.:]`), so("L4", `jitterbuffer`), s("J3", `\|pkg/jitterbuffer[.:]`), s("L1"), s("L2"), s("L3")},
 		assumptions: std,
 	}
 	props["C20"] = &propDef{
@@ -173,7 +173,7 @@ func init() {
 		explanation: "Decides: S1 — every store into a field of the exported *StreamStats structs in the recorder's record* methods is dominated by a branch condition computed from the recorder's own SSRC (header SSRC, MediaSSRC, report SSRC or DestinationSSRC membership compared with r.ssrc): a counter only moves for traffic addressed to that SSRC; S2 — the loops over the packets of a compound RTCP have no early exit (every packet of the compound is visited); S3 — no branch inside such a loop tests a loop-carried boolean that was computed from the recorder's SSRC for an earlier packet (each packet is judged by itself); " +
 			"A1/A2 on the four stats closures — every forwarded / successfully read packet is handed to the recorder exactly once and a failed read never is; C1/C6 — latestStats is only read and updated under recorder.ms in one critical section (no lost update).",
 		notDecided:  "every formula: packets lost as expected-minus-received, jitter, RTT from LSR/DLSR and DLRR, fraction lost, NTP conversions — numerical",
-		sels:        []sel{s("U2", `\|pkg/stats[.:]`), s("U1", `\|pkg/stats[.:]`), s("S6"), s("W1", `\|pkg/stats[.:]`), s("V1", `\|pkg/stats[.:]`), s("E4", `\|pkg/stats[.:]`), s("K4", `\|pkg/stats[.:]`), s("P3", `stats\.internalStats`), s("S1"), s("S2"), s("S3"), s("S4"), s("S5"), s("A1", `stats\.`), s("A2", `stats\.`), s("C1", `stats\.`), so("C6", `stats\.`)},
+		sels:        []sel{s("U2", `\|pkg/stats[.:]`), s("U1", `\|pkg/stats[.:]`), s("S7"), s("S6"), s("W1", `\|pkg/stats[.:]`), s("V1", `\|pkg/stats[.:]`), s("E4", `\|pkg/stats[.:]`), s("K4", `\|pkg/stats[.:]`), s("P3", `stats\.internalStats`), s("S1"), s("S2"), s("S3"), s("S4"), s("S5"), s("A1", `stats\.`), s("A2", `stats\.`), s("C1", `stats\.`), so("C6", `stats\.`)},
 		assumptions: std,
 	}
 }
@@ -240,6 +240,7 @@ func init() {
 	add("C17", "Q1 also (slice queue): the element written is cut from the queue in the same iteration — the cut dominates the write, or no path from the write back to the loop head goes around a cut — so a failed downstream write cannot hand the same packet over twice.")
 	add("C18", "L2 also: where a pop's queue call is known to have failed, no method that writes through the queue is called (a failed pop leaves the buffer as it was). L3 does not demand that Clear reset a free list — a field every store into which stores a node zeroed as a whole or taken from the field's own chain.")
 	add("C12", "E5 a node taken off the front of a doubly linked list is cut off from it: after the root advances (`q.next = q.next.next`) every path resets the new first node's back pointer or finds the list empty — otherwise every node ever popped stays reachable through the chain of back pointers while the list is not empty.")
+	add("C18", "X1 a field a functional option configures (the minimum packet count) is never assigned a constant after construction: Clear(true) resets state, not configuration — otherwise \"playback has started\" is judged against the default 50 after the first Clear, whatever minimum the buffer was built with.")
 	add("C18", "E5 the jitter buffer's list does not keep popped nodes reachable through the new head's back pointer.")
 	add("C09", "W1 no successful return hands back a named result that nothing ever assigned while sibling returns compute that position (the running reference time of the TWCC chunk unpackers restarts at zero).")
 	add("C09", "O4 the factory hands every interceptor a history of its own: nothing stored into the interceptor that NewInterceptor builds is a stateful object (or a struct referring to one) taken from the factory.")
@@ -260,9 +261,11 @@ func init() {
 	add("C07", "A8 the sender report written downstream is allocated for that report: it is not an object kept in the stream and refilled on the next tick (a receiver still holding the earlier report would see the later counts).")
 	add("C16", "H1 also: a clamp applied to the initial bitrate at construction uses the configured bounds of the same object, not other constants.")
 	add("C01", "A7 the length a reader reports is the wrapped reader's n, the result of a copy or MarshalTo into the caller's buffer, or 0 — never a length computed elsewhere (len of a scratch slice), which can exceed the buffer.")
+	add("C02", "X2 a reader that hands its caller other bytes than the upstream read produced (a packet popped from a buffer, its length taken from MarshalTo) hands out attributes of its own: the upstream read's attributes hold the header an inner interceptor cached for another packet, and an outer interceptor slicing `bytes[header.MarshalSize():n]` by it panics in the caller of Read.")
 	add("C02", "A7 no reader reports more bytes than the caller's buffer holds (callers re-slice the buffer with n).")
 	add("C15", "I4 from every allocation of a number, every path to a downstream write passes the SetExtension that puts the number on the packet: a pass-through decided after the allocation would consume numbers that never leave.")
 	add("C04", "T6 a ring slot whose occupant was released (directly or through a helper that releases the slot it is told to) is assigned nil or the new packet on every path to the return, or the ring is reset: no slot keeps a packet the ring no longer owns.")
+	add("C19", "S7 a figure copied out of an RTCP object (a sender report's packet count, a report block's jitter) is assigned only under a comparison of the recorder's SSRC with a field of that same object: reaching the recorder because the compound packet mentions the stream is not enough — a sender report of another stream that carries a block about this one must not overwrite this stream's remote-outbound figures.")
 	add("C19", "S6 the figures copied from one report block (values computed from nothing but that block's fields) are assigned on the same paths of an iteration: an early continue cannot leave one of them from an older report; V1 no mutating method is called on a discarded copy of the recorder's state (an unwrapper inside a struct passed by value).")
 	add("C14", "V1 no mutating method is called on a copy that is then dropped (`for _, m := range masks { m.Reset() }` clears nothing).")
 	add("C16", "V1 no update is made to a discarded copy of estimator state.")
